@@ -607,15 +607,60 @@ VARIANTS = [
           "new": "        instance += _PAD_BYTE * (self._length - len(instance))\n"},
          {"file": SER, "old": "        return reader.read(self._bytes_tmpl, ctx=ctx).rstrip(b\"\\x00\").decode(\"utf8\")\n",
           "new": "        return reader.read(self._bytes_tmpl, ctx=ctx).rstrip(_PAD_BYTE).decode(\"utf8\")\n"}]},
-    # decided by the generic builtin-eq-ne lint (P2) once it looks through typing aliases: OrderedMultiDict's base is
-    # MultiDict(Dict[_K, _T]), and structlint compares the base's name with "dict" literally.  Flip to "C08.P2" then.
-    {"name": "X P2 OrderedMultiDict loses its __ne__ again (D154; lint does not see Dict[..] as dict yet)",
-     "file": "hippolyzer/lib/base/multidict.py", "expect": "miss",
+    # decided by the generic builtin-eq-ne lint (P2), which looks through generic bases and typing aliases:
+    # OrderedMultiDict(MultiDict[_K, _T]) -> MultiDict(Dict[_K, _T]) -> dict
+    {"name": "X P2 OrderedMultiDict loses its __ne__ again (D154)",
+     "file": "hippolyzer/lib/base/multidict.py", "expect": "C08.P2",
      "old": "    def __ne__(self, other: object) -> bool:\n        # dict.__ne__ would compare the raw buckets, which never compare equal\n"
             "        eq = self.__eq__(other)\n        return eq if eq is NotImplemented else not eq\n\n", "new": ""},
     {"name": "P P2 OrderedMultiDict.__ne__ spelled as a plain negation", "file": "hippolyzer/lib/base/multidict.py", "expect": "silent",
      "old": "        eq = self.__eq__(other)\n        return eq if eq is NotImplemented else not eq\n",
      "new": "        return not self.__eq__(other)\n"},
+    # ------------------------------------------------------------------ round 9
+    {"name": "P R1 Reader.read peeks through a thin wrapper method around scoped_seek", "file": SER, "expect": "silent",
+     "edits": [
+         {"file": SER, "old": "            with self.scoped_seek(pos=0, whence=SEEK_CUR):\n                return ser_type.deserialize(self, ctx)\n",
+          "new": "            with self._unread_afterwards():\n                return ser_type.deserialize(self, ctx)\n"},
+         {"file": SER, "old": "    def read(self, ser_type: SERIALIZABLE_TYPE, ctx=None, peek=False):\n",
+          "new": "    def _unread_afterwards(self):\n        return self.scoped_seek(pos=0, whence=SEEK_CUR)\n\n"
+                 "    def read(self, ser_type: SERIALIZABLE_TYPE, ctx=None, peek=False):\n"}]},
+    {"name": "P R2 NumPyArray.encode asks a helper method whether the cast lost anything", "file": SER, "expect": "silent",
+     "edits": [
+         {"file": SER, "old": "        if np.issubdtype(self.dtype, np.integer) and not np.array_equal(val, src.flatten()):\n",
+          "new": "        if self._lost_something(src, val):\n"},
+         {"file": SER, "old": "    def encode(self, val, ctx: Optional[ParseContext]) -> Any:\n        src = np.asarray(val)\n",
+          "new": "    def _lost_something(self, before, after):\n"
+                 "        return np.issubdtype(self.dtype, np.integer) and not np.array_equal(after, before.flatten())\n\n"
+                 "    def encode(self, val, ctx: Optional[ParseContext]) -> Any:\n        src = np.asarray(val)\n"}]},
+    {"name": "R24 EnumSwitch decodes its payload while the reader is forced into rich mode", "file": SER, "expect": "C08.R24",
+     "old": "        flag = reader.read(self._enum_spec, ctx=ctx)\n        choice_flag = flag\n"
+            "        # POD mode, need to get the actual enum val to do the lookup\n        if isinstance(flag, str):\n"
+            "            choice_flag = self._enum_spec.enum_cls[choice_flag]\n"
+            "        val = flag, reader.read(self._choice_specs[choice_flag], ctx=ctx)\n",
+     "new": "        was_pod = reader.pod\n        with reader.scoped_pod(pod=False):\n"
+            "            member = reader.read(self._enum_spec, ctx=ctx)\n"
+            "            payload = reader.read(self._choice_specs[member], ctx=ctx)\n"
+            "        val = (member.name if was_pod and hasattr(member, \"name\") else member), payload\n"},
+    {"name": "P R24 EnumSwitch reads only its discriminator in forced rich mode, the payload in the caller's mode", "file": SER,
+     "expect": "silent",
+     "old": "        flag = reader.read(self._enum_spec, ctx=ctx)\n        choice_flag = flag\n"
+            "        # POD mode, need to get the actual enum val to do the lookup\n        if isinstance(flag, str):\n"
+            "            choice_flag = self._enum_spec.enum_cls[choice_flag]\n"
+            "        val = flag, reader.read(self._choice_specs[choice_flag], ctx=ctx)\n",
+     "new": "        with reader.scoped_pod(pod=False):\n            choice_flag = reader.read(self._enum_spec, ctx=ctx)\n"
+            "        flag = getattr(choice_flag, \"name\", choice_flag) if reader.pod else choice_flag\n"
+            "        val = flag, reader.read(self._choice_specs[choice_flag], ctx=ctx)\n"},
+    {"name": "R3 Collection.deserialize refuses counts by a guessed entry size", "file": SER, "expect": "C08.R3",
+     "old": "                size = reader.read(self._len_spec, ctx=ctx)\n            else:\n                size = self._length\n",
+     "new": "                size = reader.read(self._len_spec, ctx=ctx)\n"
+            "                if size * (self._entry_ser.calc_size() or 1) > len(reader):\n"
+            "                    raise ValueError(\"count can't fit\")\n            else:\n                size = self._length\n"},
+    {"name": "P R3 Collection.deserialize early exact check only when the entry size is known and non-zero", "file": SER,
+     "expect": "silent",
+     "old": "                size = reader.read(self._len_spec, ctx=ctx)\n            else:\n                size = self._length\n",
+     "new": "                size = reader.read(self._len_spec, ctx=ctx)\n                per_entry = self._entry_ser.calc_size()\n"
+            "                if per_entry and reader.seekable and size * per_entry > len(reader):\n"
+            "                    raise ValueError(\"count can't fit\")\n            else:\n                size = self._length\n"},
     # ------------------------------------------------------------------ documented limits (value level)
     {"name": "X OptionalPrefixed reader's presence test flipped (conditions are not compared)", "file": SER, "expect": "miss",
      "old": "        present = reader.read(U8, ctx=ctx)\n        if present:\n", "new":
